@@ -118,19 +118,32 @@ impl Net {
         let _ = std::fs::remove_dir_all(&self.root);
     }
 
-    /// runs a closure on a reader connection of peer `p`
-    pub async fn sql<T: Send + 'static>(&self, p: usize, f: impl FnOnce(&rusqlite::Connection) -> T + Send + 'static) -> T {
-        let (tx, rx) = oneshot::channel::<T>();
-        self.peers[p]
-            .db
-            .db
-            .reader
-            .send_async(Box::new(move |conn| {
-                let _ = tx.send(f(conn));
-            }))
-            .await
-            .expect("reader");
-        rx.await.expect("reader answer")
+    /// runs a closure on a reader connection of peer `p`; the closure must not panic (it runs on one
+    /// of the instance's reader threads): it returns a Result and is retried while SQLite reports
+    /// "database is locked" (a loaded machine can exceed the 5 s busy timeout)
+    pub async fn sql<T: Send + 'static>(&self, p: usize, f: impl Fn(&rusqlite::Connection) -> rusqlite::Result<T> + Send + Sync + Clone + 'static) -> T {
+        let mut last = String::new();
+        for _ in 0..200 {
+            let (tx, rx) = oneshot::channel::<rusqlite::Result<T>>();
+            let g = f.clone();
+            self.peers[p]
+                .db
+                .db
+                .reader
+                .send_async(Box::new(move |conn| {
+                    let _ = tx.send(g(conn));
+                }))
+                .await
+                .expect("reader");
+            match rx.await.expect("reader answer") {
+                Ok(v) => return v,
+                Err(e) => {
+                    last = e.to_string();
+                    tokio::time::sleep(std::time::Duration::from_millis(100)).await;
+                }
+            }
+        }
+        panic!("reader query keeps failing on peer {}: {}", p, last);
     }
 
     /// waits until the daily log of peer `p` has no row marked for recomputation; returns false
@@ -139,7 +152,7 @@ impl Net {
         let mut natural = true;
         for round in 0..15000 {
             let dirty: i64 = self
-                .sql(p, |c| c.query_row("SELECT count(*) FROM _daily_log WHERE need_recompute = 1", [], |r| r.get(0)).unwrap())
+                .sql(p, |c| c.query_row("SELECT count(*) FROM _daily_log WHERE need_recompute = 1", [], |r| r.get(0)))
                 .await;
             if dirty == 0 {
                 return natural;
@@ -282,28 +295,20 @@ impl Net {
 
     pub async fn dump_nodes(&self, p: usize, room: Uid) -> Vec<NodeRow> {
         self.sql(p, move |c| {
-            let mut st = c
-                .prepare("SELECT id, mdate, cdate, _entity, _json, verifying_key, _signature, rowid FROM _node WHERE room_id = ? ORDER BY id")
-                .unwrap();
-            let rows = st
-                .query_map([room], |r| {
-                    Ok(NodeRow { id: r.get(0)?, mdate: r.get(1)?, cdate: r.get(2)?, entity: r.get(3)?, json: r.get(4)?, author: r.get(5)?, sig: r.get(6)?, rowid: r.get(7)? })
-                })
-                .unwrap();
-            rows.map(|r| r.unwrap()).collect()
+            let mut st = c.prepare("SELECT id, mdate, cdate, _entity, _json, verifying_key, _signature, rowid FROM _node WHERE room_id = ? ORDER BY id")?;
+            let rows = st.query_map([room], |r| {
+                Ok(NodeRow { id: r.get(0)?, mdate: r.get(1)?, cdate: r.get(2)?, entity: r.get(3)?, json: r.get(4)?, author: r.get(5)?, sig: r.get(6)?, rowid: r.get(7)? })
+            })?;
+            rows.collect()
         })
         .await
     }
 
     pub async fn dump_tombs(&self, p: usize, room: Uid) -> Vec<TombRow> {
         self.sql(p, move |c| {
-            let mut st = c
-                .prepare("SELECT id, mdate, deletion_date, entity, verifying_key, signature FROM _node_deletion_log WHERE room_id = ? ORDER BY id, deletion_date")
-                .unwrap();
-            let rows = st
-                .query_map([room], |r| Ok(TombRow { id: r.get(0)?, mdate: r.get(1)?, ddate: r.get(2)?, entity: r.get(3)?, author: r.get(4)?, sig: r.get(5)? }))
-                .unwrap();
-            rows.map(|r| r.unwrap()).collect()
+            let mut st = c.prepare("SELECT id, mdate, deletion_date, entity, verifying_key, signature FROM _node_deletion_log WHERE room_id = ? ORDER BY id, deletion_date")?;
+            let rows = st.query_map([room], |r| Ok(TombRow { id: r.get(0)?, mdate: r.get(1)?, ddate: r.get(2)?, entity: r.get(3)?, author: r.get(4)?, sig: r.get(5)? }))?;
+            rows.collect()
         })
         .await
     }
@@ -311,15 +316,15 @@ impl Net {
     /// (date, entity, entry_number, daily_hash, history_hash) of the room's daily log
     pub async fn dump_log(&self, p: usize, room: Uid) -> Vec<(i64, String, i64, Option<Vec<u8>>, Option<Vec<u8>>)> {
         self.sql(p, move |c| {
-            let mut st = c.prepare("SELECT date, entity, entry_number, daily_hash, history_hash FROM _daily_log WHERE room_id = ? ORDER BY date, entity").unwrap();
-            let rows = st.query_map([room], |r| Ok((r.get(0)?, r.get(1)?, r.get(2)?, r.get(3)?, r.get(4)?))).unwrap();
-            rows.map(|r| r.unwrap()).collect()
+            let mut st = c.prepare("SELECT date, entity, entry_number, daily_hash, history_hash FROM _daily_log WHERE room_id = ? ORDER BY date, entity")?;
+            let rows = st.query_map([room], |r| Ok((r.get(0)?, r.get(1)?, r.get(2)?, r.get(3)?, r.get(4)?)))?;
+            rows.collect()
         })
         .await
     }
 
     pub async fn max_rowid(&self, p: usize) -> i64 {
-        self.sql(p, |c| c.query_row("SELECT ifnull(max(rowid),0) FROM _node", [], |r| r.get(0)).unwrap()).await
+        self.sql(p, |c| c.query_row("SELECT ifnull(max(rowid),0) FROM _node", [], |r| r.get(0))).await
     }
 }
 
@@ -555,7 +560,11 @@ impl Net {
     /// (documents, tokens) totals of the full-text index (the FTS5 'averages' record)
     pub async fn fts_totals(&self, p: usize) -> (i64, i64) {
         self.sql(p, |c| {
-            let blk: Vec<u8> = c.query_row("SELECT block FROM _node_fts_data WHERE id=1", [], |r| r.get(0)).unwrap_or_default();
+            let blk: Vec<u8> = match c.query_row("SELECT block FROM _node_fts_data WHERE id=1", [], |r| r.get(0)) {
+                Ok(b) => b,
+                Err(rusqlite::Error::QueryReturnedNoRows) => vec![],
+                Err(e) => return Err(e),
+            };
             let mut vals = vec![];
             let mut i = 0;
             while i < blk.len() {
@@ -571,7 +580,7 @@ impl Net {
                 }
                 vals.push(v);
             }
-            (vals.first().cloned().unwrap_or(0), vals.get(1).cloned().unwrap_or(0))
+            Ok((vals.first().cloned().unwrap_or(0), vals.get(1).cloned().unwrap_or(0)))
         })
         .await
     }
